@@ -223,11 +223,14 @@ void c03_body_exit()
 
 // S2: after start() returned (and no stop() since) the body runs again within the bound, in a
 // fault-free fair phase
+static sem_t blocker_sem;  // modelled by the simulator; a thread blocked on it uses up none of the run's step budget
 void c03_blocker()
 {
+  if (sim_self() == 0)
+    return;  // run by the scheduling thread itself (full pipe, shutdown): never make thread 0 wait for its own release
   blockers_started++;
   while (!blockers_released)
-    sim_yield();
+    sem_wait(&blocker_sem);
 }
 void c03_wait_blockers(int n)
 {
@@ -237,7 +240,12 @@ void c03_wait_blockers(int n)
   if (blockers_started >= n)
     sim_probe(P_WORKERS_BUSY);
 }
-void c03_release_blockers() { blockers_released = 1; }
+void c03_release_blockers()
+{
+  blockers_released = 1;
+  for (int i = 0; i < blockers_started; i++)
+    sem_post(&blocker_sem);
+}
 
 void c03_expect_progress()
 {
